@@ -17,7 +17,7 @@ import (
 // NewState opens a state machine named `name` (its own state database) over
 // the environment's ledger. Opening the same name again re-opens the same data.
 func (e *Env) NewState(name string) *state.State {
-	c := &sctx.StateCtx{EnvCfg: e.EnvCfg, LedgerCfg: &config.XLedgerConf{KVEngineType: "verifmem", StorageType: "single"}, BCName: name,
+	c := &sctx.StateCtx{EnvCfg: e.EnvCfg, LedgerCfg: &config.XLedgerConf{KVEngineType: "verifmem", StorageType: "single", Utxo: config.UtxoConfig{CacheSize: 1000, TmpLockSeconds: 60}}, BCName: name,
 		Ledger: e.L, Crypt: &vcrypto.Stub{}}
 	c.XLog = vlog.Nop{}
 	c.Timer = timer.NewXTimer()
